@@ -216,3 +216,45 @@ def _excluded_after(v, call, later) -> bool:
                 # no re-assignment of X to None between the call and the test
                 return not any(isinstance(d, ast.Assign) and any(isinstance(t, ast.Name) and t.id == x for t in d.targets) and isinstance(d.value, ast.Constant) and d.value.value is None and d is not st and v.cfg.reachable(v.cfg_id(st), v.cfg_id(d)) for d in walk_no_nested(v.fi.node))
     return False
+
+
+def check_same_named_forwarding(ctx, res: Result, cls: str, params: Iterable[str], rule="F-SEL"):
+    """Sibling agreement inside one class: a method that receives a selection parameter `p` and calls other methods of the
+    class that also take a parameter named `p` hands it on at every such call.  Leaving it out (the callee's default applies)
+    while the same method hands it to other callees is reported; an explicit other value is the author's choice."""
+    n = 0
+    for name, fi in sorted(ctx.methods(cls).items()):
+        own = {a.arg for a in fi.params} | {a.arg for a in fi.node.args.kwonlyargs}
+        for p in params:
+            if p not in own:
+                continue
+            sites = []  # (call, callee, passed expression or None)
+            for c in walk_no_nested(fi.node):
+                if not (isinstance(c, ast.Call) and isinstance(c.func, ast.Attribute) and isinstance(c.func.value, ast.Name) and c.func.value.id == "self"):
+                    continue
+                for g in ctx.callees(fi, c):
+                    gp = [a.arg for a in g.params][1:] + [a.arg for a in g.node.args.kwonlyargs]
+                    if p not in gp or g.cls is not fi.cls:
+                        continue
+                    passed = None
+                    for kw in c.keywords:
+                        if kw.arg == p:
+                            passed = kw.value
+                        if kw.arg is None:
+                            passed = kw.value  # **kwargs: not visible
+                    pos = [a.arg for a in g.params][1:]
+                    if passed is None and p in pos and pos.index(p) < len(c.args):
+                        passed = c.args[pos.index(p)]
+                    if passed is None and any(isinstance(a, ast.Starred) for a in c.args):
+                        passed = c.args[0]
+                    sites.append((c, g, passed))
+            handed = [s for s in sites if s[2] is not None]
+            for c, g, passed in sites:
+                n += 1
+                if passed is not None:
+                    res.ok(rule, fi.short, norm(c), f"{g.name}:{p}", loc(fi, c))
+                elif handed:
+                    res.violation(rule, fi.short, norm(c), f"{g.name}:{p}", f"`{p}` is handed to {', '.join(sorted({h[1].name for h in handed}))} but left out in this call of {g.name}, whose own `{p}` then takes its default: the quantities are computed for different selections", loc(fi, c))
+                else:
+                    res.unknown(rule, fi.short, norm(c), f"{g.name}:{p}", f"`{p}` is not handed to {g.name} (nor to any other callee that takes it)", loc(fi, c))
+    return n
